@@ -238,6 +238,24 @@ func (w *world) set(h uint64) *vset {
 	return s
 }
 
+// setByPubKeyHash finds the validator set (prescribed for some height, or one of the
+// foreign sets) with the given public key hash, nil if the harness never made one.
+func (w *world) setByPubKeyHash(h []byte) *vset {
+	w.mu.Lock()
+	defer w.mu.Unlock()
+	for _, s := range w.sets {
+		if bytes.Equal(s.vs.PubKeyHash, h) {
+			return s
+		}
+	}
+	for _, s := range w.foreign {
+		if bytes.Equal(s.vs.PubKeyHash, h) {
+			return s
+		}
+	}
+	return nil
+}
+
 func (w *world) foreignSet(n int) *vset {
 	w.mu.Lock()
 	defer w.mu.Unlock()
